@@ -815,7 +815,30 @@ package parse
 // < > <= >=; == !=; and; or; ?: and the ternary).
 //@ inittable[precedence-order;C01] precedence[itemNot] == precedence[itemNegate] && precedence[itemNegate] > precedence[itemMul] && precedence[itemMul] == precedence[itemDiv] && precedence[itemDiv] == precedence[itemMod] && precedence[itemMod] > precedence[itemAdd] && precedence[itemAdd] == precedence[itemSub] && precedence[itemSub] > precedence[itemLt] && precedence[itemLt] == precedence[itemGt] && precedence[itemGt] == precedence[itemLte] && precedence[itemLte] == precedence[itemGte] && precedence[itemGte] > precedence[itemEq] && precedence[itemEq] == precedence[itemNotEq] && precedence[itemNotEq] > precedence[itemAnd] && precedence[itemAnd] > precedence[itemOr] && precedence[itemOr] > precedence[itemElvis] && precedence[itemElvis] == 0
 //@ func init
-//@   props C01
+//@   props C01 C13
 //@   nosafety
 //@   loop 0
 //@     noterm
+
+// ---------------------------------------------------------------------------
+// C13: the spelling of a token type in error messages is found by ranging over
+// the keyword tables; only itemBool has two spellings ("true", "false"), and no
+// caller asks for it (expect is always given a constant type).
+//@ globalinv[one-spelling-per-type;C13] forallof(a, string, forallof(b, string, haskey(builtinIdents, a) && haskey(builtinIdents, b) && !same(a, b) && builtinIdents[a] == builtinIdents[b] ==> builtinIdents[a] == itemBool))
+//@ globalinv[one-symbol-per-type;C13] forallof(a, string, forallof(b, string, haskey(arithmeticItemsBySymbol, a) && haskey(arithmeticItemsBySymbol, b) && !same(a, b) ==> arithmeticItemsBySymbol[a] != arithmeticItemsBySymbol[b]))
+//@ func (itemType).String
+//@   props C13
+//@   nosafety
+//@   requires t != itemBool
+//@   note the precondition t != itemBool is not checked at the call sites for C13: (*tree).expect passes its `expected` argument, which is a constant other than itemBool at all 54 calls of expect (inspection), and fmt verbs format items, not item types
+//@   modifies *
+
+// C13: the escape table is the inverse of the unescape table; filling it by
+// ranging over the latter is deterministic because no two sequences unescape to
+// the same rune (checked where the package initialiser calls this function).
+//@ func init#1
+//@   props C13
+//@   nosafety
+//@   requires[inv:unescapes-injective] forallof(a, rune, forallof(b, rune, haskey(unescapes, a) && haskey(unescapes, b) && a != b ==> unescapes[a] != unescapes[b]))
+//@   requires escapes != nil && !same(escapes, unescapes)
+//@   modifies escapes[_]
